@@ -16,10 +16,10 @@ def in_range(cls, f, v):
     return True
 
 
-def values(rng, cls, f, tier):
+def values(rng, cls, f, tier, exhaustive16=False):
     w = f['w']
     full = (1 << w) - 1
-    if w <= 8 or (w <= 16 and tier == 'thorough'):
+    if w <= 8 or (w <= 16 and tier == 'thorough' and exhaustive16):
         vals = list(range(1 << w))
         rng.shuffle(vals)
     else:
@@ -59,11 +59,12 @@ def sweeps(table, seed, tier, prefix='s'):
     for cls in sorted(table):
         size = table[cls]['size']
         for f in settable(table, cls):
-            for kind in kinds:
+            for ki, kind in enumerate(kinds):
                 bg = fix_background(cls, background(rng, size, kind))
                 ops = [{'op': 'load', 'cls': cls, 'raw': bg}]
                 nb = (f['w'] + 7) // 8
-                for v in values(rng, cls, f, tier):
+                # thorough: all 65536 values of a 16 bit field on one random prior state, samples on the others
+                for v in values(rng, cls, f, tier, exhaustive16=(ki == 2)):
                     ops.append({'op': 'set', 'cls': cls, 'f': f['n'], 'v': be(v, nb)})
                 yield {'id': '%s%d' % (prefix, n), 'comp': 'obj', 'ops': ops}
                 n += 1
